@@ -122,6 +122,7 @@ void run_pool(const Case &c) {
     int functor_runs_expected = 0;
     vsched::on_deadlock = pool_deadlock; vsched::on_switch = pool_switch; vsched::on_step_limit = on_steps;
     tasks.reserve(c.ops.size() + 4);
+    vsched::set_mode_pct(hget(c, 2, 0) == 1); if (hget(c, 2, 0) == 1) label("pct_schedule");
     vsched::begin(c.sched.data(), c.sched.size());
     {
         auto pool = std::make_unique<ThreadPool>();
@@ -297,6 +298,7 @@ void run_thread(const Case &c) {
     label(kn[kind]);
     vsched::on_deadlock = thread_deadlock; vsched::on_step_limit = on_steps;
     g_a1 = 0; g_a2 = 0;
+    vsched::set_mode_pct(hget(c, 4, 0) == 1); if (hget(c, 4, 0) == 1) label("pct_schedule");
     vsched::begin(c.sched.data(), c.sched.size());
     {
         alignas(Thread) unsigned char storage[sizeof(Thread)];
